@@ -5,18 +5,23 @@ import json, os, re, sys
 V = os.path.join(os.path.dirname(os.path.abspath(__file__)), "..")
 res = {}
 detail = {}
+SID = r"C\d+-\d?[AB]"
 for path in sys.argv[1:]:
-    cur = None
+    fres, fdet = {}, {}
     for line in open(path):
-        m = re.match(r"^(C\d+-[AB]): (.*)$", line.strip())
+        m = re.match(r"^(%s): (.*)$" % SID, line.strip())
         if m and not line.startswith("    "):
-            res[m.group(1)] = m.group(2)
+            fres[m.group(1)] = m.group(2)
             continue
-        m = re.match(r"^\s+(C\d+-[AB]) (C\d+)\s+harness=(\S+) \[(\w[\w-]*)\] (.*?) at (\S+) .*confirmed=(\S*)", line)
+        m = re.match(r"^\s+(%s) (C\d+)\s+harness=(\S+) \[(\w[\w-]*)\] (.*?) at (\S+) .*confirmed=(\S*)" % SID, line)
         if m:
-            detail.setdefault(m.group(1), [])
-            if len(detail[m.group(1)]) < 3:
-                detail[m.group(1)].append("%s: [%s] %s (confirmed natively: %s)" % (m.group(3).replace("verifHarness_", ""), m.group(4), m.group(5), m.group(7) or "n/a"))
+            fdet.setdefault(m.group(1), [])
+            if len(fdet[m.group(1)]) < 3:
+                fdet[m.group(1)].append("%s: [%s] %s (confirmed natively: %s)" % (m.group(3).replace("verifHarness_", ""), m.group(4), m.group(5), m.group(7) or "n/a"))
+    # a later file replaces what an earlier one said about the same seed
+    for sid, r in fres.items():
+        res[sid] = r
+        detail[sid] = fdet.get(sid, [])
 rows = []
 for sid in sorted(os.listdir(os.path.join(V, "seeded"))):
     mp = os.path.join(V, "seeded", sid, "meta.json")
@@ -34,7 +39,7 @@ for sid in sorted(os.listdir(os.path.join(V, "seeded"))):
     rows.append((sid, meta["property"], "caught" if caught else ("inconclusive" if "rc=3" in r else ("MISSED" if "rc=0" in r else r)), first[:110], "; ".join(detail.get(sid, [])[:2])))
 with open(os.path.join(V, "seeded_results.md"), "w") as f:
     f.write("# Seeded breaking changes vs. checks\n\nEach change compiles, passes the 261 existing tests, and fails its own demonstration test (confirmed in a scratch worktree). "
-            "`gen/run_seeds.sh` applied it to a scratch clone of /repo and ran the property's quick check (`VERIF_REPO`, per-harness path budget 4000).\n\n")
+            "`gen/run_seeds.sh` applied it to a scratch clone of /repo and ran the property's registered quick check (`VERIF_REPO`). Rounds: X-A/B one-site regressions; X-2A/2B scale-dependent; X-3A/3B and X-4A/4B different sites and mechanisms from the earlier ones. The outcome shown is that of the latest run of each seed.\n\n")
     f.write("| seed | property | outcome | change | first findings |\n|---|---|---|---|---|\n")
     for r in rows:
         f.write("| %s | %s | %s | %s | %s |\n" % r)
